@@ -101,7 +101,7 @@ def prepare_crate(tag, units, repo=REPO):
     return dst, woven
 
 
-_CHECK_RE = re.compile(r'^Check (\d+): (\S+)\s*$')
+_CHECK_RE = re.compile(r'^Check (\d+): (.+?)\s*$')
 
 
 def parse_kani_output(out):
